@@ -317,6 +317,15 @@ class FuncCtx:
         self.prog = eff.prog
         self.envR = {}
         self.envH = {}
+        # fix-point over mutually dependent locals (worklists: `x = w.pop()`
+        # ... `w.append(f(x))`): values computed while a name further out was
+        # still a placeholder are re-evaluated, seeded with what is known,
+        # until nothing changes
+        self._open = set()
+        self._touched = []
+        self._seed = {}
+        self._cyc = False
+        self._iterating = False
         self.out = Summary()
         self.facts = self.ty.assignments(f)
         self.store_facts = {}
@@ -492,9 +501,14 @@ class FuncCtx:
         allf = self.facts.get(name, [])
         key = (name, path, frozenset(id(x) for x in facts), is_param)
         if key in self.envR:
+            if ("R", key) in self._open:
+                self._cyc = True
             return set(self.envR[key])
-        self.envR[key] = set()
-        out = set()
+        outer = not self._open
+        out = set(self._seed.get(("R", key), ()))
+        self.envR[key] = set(out)
+        self._open.add(("R", key))
+        self._touched.append(("R", key))
         if is_param:
             pt = T.flat(self.ty.param_shape(f, name))
             if f.kind == "class" and f.params and name == f.params[0] and f.cls:
@@ -521,6 +535,44 @@ class FuncCtx:
         if not path and vt and vt <= T.IMMUTABLE:
             out = set()
         self.envR[key] = set(out)
+        self._open.discard(("R", key))
+        if outer:
+            out = self._stabilise(lambda: self._name_R(name, path, node), out)
+        return out
+
+    def _stabilise(self, again, out):
+        """Outermost name of an evaluation: if a cycle was met, re-evaluate
+        everything cached on the way, seeded with the current values, until
+        the values no longer grow."""
+        if self._iterating:
+            return out
+        n = 0
+        while self._cyc and n < 5:
+            n += 1
+            self._cyc = False
+            seed = {}
+            for tag, k in self._touched:
+                env = self.envR if tag == "R" else self.envH
+                if k in env:
+                    seed[(tag, k)] = set(env[k])
+                    del env[k]
+            self._touched = []
+            self._seed = seed
+            self._iterating = True
+            try:
+                out = again()
+            finally:
+                self._iterating = False
+            same = True
+            for tag, k in self._touched:
+                env = self.envR if tag == "R" else self.envH
+                if env.get(k, set()) != seed.get((tag, k), set()):
+                    same = False
+            if same:
+                break
+        self._seed = {}
+        self._touched = []
+        self._cyc = False
         return out
 
     def _name_H(self, name, node=None, field=None):
@@ -530,9 +582,14 @@ class FuncCtx:
         facts, is_param = self.ty.facts_at(self.f, name, node)
         key = (name, frozenset(id(x) for x in facts), field)
         if key in self.envH:
+            if ("H", key) in self._open:
+                self._cyc = True
             return set(self.envH[key])
-        self.envH[key] = set()
-        out = set()
+        outer = not self._open
+        out = set(self._seed.get(("H", key), ()))
+        self.envH[key] = set(out)
+        self._open.add(("H", key))
+        self._touched.append(("H", key))
         if not self.facts.get(name) and name not in self.f.all_param_names():
             out |= self._free_H(name)
         for _ in range(6):
@@ -561,6 +618,9 @@ class FuncCtx:
             if out == before:
                 break
         self.envH[key] = set(out)
+        self._open.discard(("H", key))
+        if outer:
+            out = self._stabilise(lambda: self._name_Ht(name, node, field), out)
         return out
 
     def _scopes(self):
